@@ -82,6 +82,7 @@ type ChanObj struct {
 	cap    int
 	closed bool
 	et     types.Type
+	timer  bool // time.Timer channel: readiness is scripted
 }
 type ChanVal struct{ c *ChanObj }
 
